@@ -1,5 +1,5 @@
 """C13 — the Clifford/stabilizer subsystem agrees with full state simulation (DESIGN 5/C13)."""
-import cmath, itertools, math
+import cmath, itertools, math, random
 from concurrent.futures import ThreadPoolExecutor
 import numpy as np
 from .. import env, coq, runner, tables
@@ -218,6 +218,19 @@ def tab_coq(t):
                            for bits, r in rows) + ']'
 
 
+def tab_lit(t):
+    """The tableau as a packed literal for the generated cases files (Cliff/TableauHarness.v: TI)."""
+    n, v, k = t.n, 0, 0
+    for i in range(2 * n):
+        for j in range(n):
+            v |= (int(t.zs[i, j]) << k) | (int(t.xs[i, j]) << (k + 1))
+            k += 2
+        v |= int(t.rs[i]) << k
+        k += 1
+    chunks = [(v >> s) & ((1 << 60) - 1) for s in range(0, max(k, 1), 60)]
+    return f'(TI {n} [' + ';'.join(str(c) for c in chunks) + '])'
+
+
 def B(b):
     return 'true' if b else 'false'
 
@@ -248,6 +261,112 @@ def measured_bit(state, key):
     return int(rec[k][-1][0])
 
 
+class FailList(list):
+    """Failures of one walk; every entry remembers the index of the step at which it was found."""
+    k = 0
+
+    def append(self, item):
+        list.append(self, tuple(item) + (self.k,))
+
+
+def describe_ops(ops, limit=420):
+    """Compact text of a generated circuit for the `what:` line of a violation."""
+    out = []
+    for op in ops:
+        ax = ','.join(str(a) for a in op['axes'])
+        if op['kind'] in ('m', 'r'):
+            out.append(('M' if op['kind'] == 'm' else 'Reset') + f'({ax})')
+        elif op['kind'] == 'd':
+            out.append(f'{op["name"]}({ax})')
+        elif op['fam'] == 'PH':
+            out.append('Phase')
+        else:
+            e = '' if op['q4'] == 4 else f'^{op["q4"] / 4:g}'
+            sh = '' if not op.get('shift') else f'[shift {op["shift"]:g}]'
+            out.append(f'{op["fam"]}{e}{sh}({ax})' + ('!' if op['kind'] == 'e' else ''))
+    text = ' '.join(out)
+    return text if len(text) <= limit else '... ' + text[-limit:]
+
+
+def product_class(t, q):
+    """For a Z measurement of qubit q whose outcome is fixed by the stabilizer group of tableau t: (k, phase) where k is
+    the number of stabilizer generators whose product is +/-Z_q (those whose destabilizer partner has an X on q) and
+    phase says that multiplying their Pauli strings (signs left out) gives -Z_q, i.e. the i^k factors matter.
+    Used to count which classes of measurement the generated cases reach, never to judge."""
+    n = t.n
+    rows = [i for i in range(n) if t.xs[i, q]]
+    c = 1.0 + 0j
+    for j in range(n):
+        m = np.eye(2, dtype=complex)
+        for i in rows:
+            m = m @ PAULI[(bool(t.xs[n + i, j]), bool(t.zs[n + i, j]))]
+        c *= m[0, 0] if abs(m[0, 0]) > 0.5 else m[0, 1]
+    return len(rows), bool(c.real < -0.5)
+
+
+def tableau_measure(ctx, pre, run, psi, q, key, first_bit, cid, advancing, steps, fails):
+    """Measure qubit q of the tableau `pre` once per scripted random bit (run(bit) -> (tableau after, outcome, number of
+    random values drawn, handle); every call starts from a copy of the same state), judge every branch against the
+    reference state psi and append the SM/SMalt steps for the model.  Returns (handle, outcome) of the branch first_bit."""
+    n = pre.n
+    p1 = float(np.sum(np.abs(psi.reshape((2,) * n).take(1, axis=q)) ** 2))
+    post, out, calls, handle = run(first_bit)
+    if calls not in (0, 1):
+        raise Unsupported('tableau measurement consumed %d random values' % calls)
+    rnd = calls == 1
+    tag = 'SM' if advancing else 'SMalt'
+    sm = f'{tag} {q} {B(first_bit)} {tab_lit(post)} {B(out)} {B(rnd)}'
+    if rnd:
+        post2, out2, _, _ = run(1 - first_bit)
+        steps.append(f'SMalt {q} {B(1 - first_bit)} {tab_lit(post2)} {B(out2)} true')   # from the same pre-state
+        steps.append(sm)
+        if abs(p1 - 0.5) > ATOL or out2 == out:
+            fails.append(('measure-prob', 'tableau', f'tableau measurement of qubit {q} is random (1/2, 1/2) but Born P(1) = {p1:.6f}'))
+        for tb, ob in ((post, out), (post2, out2)):
+            alt = project(psi, q, ob, n)
+            if alt is not None and stabilizer_failures(tb, alt):
+                fails.append(('stabilizer', 'measure', f'after measuring qubit {q} -> {ob} the stabilizers do not stabilize the collapsed state'))
+    else:
+        steps.append(f'SMsame {q} {B(out)}' if post == pre else sm)
+        if abs((p1 if out else 1 - p1) - 1) > ATOL:
+            fails.append(('measure-prob', 'tableau', f'tableau measurement of qubit {q} is deterministic {out} but Born P(1) = {p1:.6f}'))
+        kk, ph = product_class(pre, q)
+        ctx.count('measure_deterministic', [cid, key, kk], kk >= 2)
+        ctx.count('measure_product_phase', [cid, key, kk], ph)
+    ctx.count('measure_branch', [cid, key, 't'], rnd)
+    return handle, out
+
+
+def act_on_measure(cirq, ts, qubits, q, key):
+    """run(bit) for tableau_measure: act_on of a MeasurementGate on a copy of the simulation state ts."""
+    mop = cirq.measure(qubits[q], key=key)
+
+    def run(bit):
+        c = ts.copy()
+        c._prng = Script([bit])
+        cirq.act_on(mop, c)
+        return c.tableau, measured_bit(c, key), c.prng.pos, c
+    return run
+
+
+def chform_measure_probability(cirq, cs, qubits, q, key, want_out=None):
+    """Run the CH-form measurement of qubit q under every script of random bits.  Returns (P(1), chosen state, its script)."""
+    mop = cirq.measure(qubits[q], key=key)
+    nv = int(np.sum(cs.state.v))
+    hits, chosen, script = 0, None, None
+    for bits in itertools.product([0, 1], repeat=nv):
+        cc = cs.copy()
+        cc._prng = Script(bits)
+        cirq.act_on(mop, cc)
+        if cc.prng.pos != nv:
+            raise Unsupported('CH-form measurement consumed %d random values, expected %d' % (cc.prng.pos, nv))
+        o = measured_bit(cc, key)
+        hits += o
+        if o == want_out and chosen is None:
+            chosen, script = cc, bits
+    return hits / 2 ** nv, nv, chosen, script
+
+
 def walk(ctx, cirq, case, report=True):
     """Run one generated circuit on the tableau and CH-form states and on the numpy reference.
     Returns (steps for the Coq trace, list of failure strings)."""
@@ -257,9 +376,9 @@ def walk(ctx, cirq, case, report=True):
     cs = cirq.StabilizerChFormSimulationState(qubits=qubits, prng=Script(), initial_state=init)
     psi = np.zeros(2 ** n, dtype=complex)
     psi[init] = 1
-    t0 = tab_coq(ts.tableau)
+    t0 = tab_lit(ts.tableau)
     c0 = ch_coq(cs.state)
-    steps, chsteps, fails = [], [], []
+    steps, chsteps, fails, trimmed = [], [], FailList(), False
 
     def oracles(label):
         bad = stabilizer_failures(ts.tableau, psi)
@@ -272,6 +391,7 @@ def walk(ctx, cirq, case, report=True):
         ctx.count('state_oracle', [case['id'], len(steps)], True)
 
     for k, op in enumerate(ops):
+        fails.k = k
         if op['kind'] in ('g', 'd'):
             o = make_operation(cirq, op, qubits)
             label = op.get('fam') or op['name']
@@ -281,9 +401,10 @@ def walk(ctx, cirq, case, report=True):
             cirq.act_on(o, cs)
             u = cirq.unitary(o)
             psi = ref_apply(psi, u, [qubits.index(q) for q in o.qubits], n) if o.qubits else psi * complex(u.reshape(-1)[0])
-            steps.append(f'SG {op_cgate(op)} (Some {tab_coq(ts.tableau)})' if op['kind'] == 'g' else f'SSkip {tab_coq(ts.tableau)}')
+            steps.append(f'SG {op_cgate(op)} (Some {tab_lit(ts.tableau)})' if op['kind'] == 'g' else f'SSkip {tab_lit(ts.tableau)}')
             chsteps.append(f'HG {op_cgate(op)} {fcl(op_phase(op))} (Some {ch_coq(cs.state)})' if op['kind'] == 'g' else f'HSkip {ch_coq(cs.state)}')
-            oracles(label)
+            if not case.get('trim') or trimmed or k + 1 >= len(ops) or ops[k + 1]['kind'] not in ('g', 'd'):
+                oracles(label)         # (a trimmed case is judged from the end of its gate prefix onwards)
         elif op['kind'] == 'e':          # direct call with an inadmissible exponent: must raise and leave the tableau alone
             t = ts.tableau
             before = t.copy()
@@ -293,7 +414,7 @@ def walk(ctx, cirq, case, report=True):
                 raised = False
             except ValueError:
                 raised = True
-            steps.append(f'SG {op_cgate(op)} ({"None" if raised else "Some " + tab_coq(t)})')
+            steps.append(f'SG {op_cgate(op)} ({"None" if raised else "Some " + tab_lit(t)})')
             if raised and t != before:
                 fails.append(('error-path', op['fam'], 'apply_* raised ValueError after modifying the tableau'))
             chb = cs.state.copy()
@@ -305,53 +426,29 @@ def walk(ctx, cirq, case, report=True):
                 if ch_coq(chb) != ch_coq(cs.state):
                     fails.append(('error-path', op['fam'], 'CH-form apply_* raised ValueError after modifying the state'))
         elif op['kind'] == 'm':
+            if case.get('trim') and not trimmed:     # the model trace starts at the first measurement (gate rules: walk stream)
+                t0, steps, trimmed = tab_lit(ts.tableau), [], True
             q = op['axes'][0]
             key = f'm{k}'
-            mop = cirq.measure(qubits[q], key=key)
             p1 = float(np.sum(np.abs(psi.reshape((2,) * n).take(1, axis=q)) ** 2))
-            res = {}
-            for bit in (op['bit'], 1 - op['bit']):
-                c = ts.copy()
-                c._prng = Script([bit])
-                cirq.act_on(mop, c)
-                res[bit] = (c, measured_bit(c, key), c.prng.pos)
-            c, out, calls = res[op['bit']]
-            if calls not in (0, 1):
-                raise Unsupported('tableau measurement consumed %d random values' % calls)
-            rnd = calls == 1
-            sm = f'SM {q} {B(op["bit"])} {tab_coq(c.tableau)} {B(out)} {B(rnd)}'
-            if rnd:
-                c2, out2, _ = res[1 - op['bit']]
-                steps.append(f'SMalt {q} {B(1 - op["bit"])} {tab_coq(c2.tableau)} {B(out2)} true')   # from the same pre-state
-                steps.append(sm)
-                if abs(p1 - 0.5) > ATOL or out2 == out:
-                    fails.append(('measure-prob', 'tableau', f'tableau measurement of qubit {q} is random (1/2, 1/2) but Born P(1) = {p1:.6f}'))
-                alt = project(psi, q, out2, n)
-                if alt is not None and stabilizer_failures(c2.tableau, alt):
-                    fails.append(('stabilizer', 'measure', f'after measuring qubit {q} -> {out2} the stabilizers do not stabilize the collapsed state'))
-            else:
-                steps.append(sm)
-            if not rnd and abs((p1 if out else 1 - p1) - 1) > ATOL:
-                fails.append(('measure-prob', 'tableau', f'tableau measurement of qubit {q} is deterministic {out} but Born P(1) = {p1:.6f}'))
-            ctx.count('measure_branch', [case['id'], k, 't'], rnd)
+            if case.get('probe'):        # every other qubit is measured on copies of the same pre-state first
+                for pq in range(n):
+                    if pq != q:
+                        tableau_measure(ctx, ts.tableau, act_on_measure(cirq, ts, qubits, pq, f'p{k}_{pq}'), psi, pq, f'p{k}_{pq}', 0, case['id'], False, steps, fails)
+                        if int(np.sum(cs.state.v)) <= 3:
+                            pp = float(np.sum(np.abs(psi.reshape((2,) * n).take(1, axis=pq)) ** 2))
+                            pch, nv, _, _ = chform_measure_probability(cirq, cs, qubits, pq, f'p{k}_{pq}')
+                            if abs(pch - pp) > ATOL:
+                                fails.append(('measure-prob', 'chform', f'CH-form measurement of qubit {pq}: P(1) = {pch:.6f} over all {2 ** nv} scripts, Born P(1) = {pp:.6f}'))
+                            ctx.count('measure_branch', [case['id'], f'p{k}_{pq}', 'c'], nv > 0)
+            c, out = tableau_measure(ctx, ts.tableau, act_on_measure(cirq, ts, qubits, q, key), psi, q, key, op['bit'], case['id'], True, steps, fails)
             # CH form: enumerate every script of this measurement
-            nv = int(np.sum(cs.state.v))
-            hits, chosen = 0, None
-            for bits in itertools.product([0, 1], repeat=nv):
-                cc = cs.copy()
-                cc._prng = Script(bits)
-                cirq.act_on(mop, cc)
-                if cc.prng.pos != nv:
-                    raise Unsupported('CH-form measurement consumed %d random values, expected %d' % (cc.prng.pos, nv))
-                o = measured_bit(cc, key)
-                hits += o
-                if o == out and chosen is None:
-                    chosen = cc
-                    chsteps.append(f'HM {q} [{"; ".join(B(b) for b in bits)}] {ch_coq(cc.state)} {B(o)}')
-            pch = hits / 2 ** nv
+            pch, nv, chosen, script = chform_measure_probability(cirq, cs, qubits, q, key, want_out=out)
+            if chosen is not None:
+                chsteps.append(f'HM {q} [{"; ".join(B(b) for b in script)}] {ch_coq(chosen.state)} {B(out)}')
             if abs(pch - p1) > ATOL:
                 fails.append(('measure-prob', 'chform', f'CH-form measurement of qubit {q}: P(1) = {pch:.6f} over all {2 ** nv} scripts, Born P(1) = {p1:.6f}'))
-            ctx.count('measure_branch', [case['id'], k, 'c'], nv > 0)
+            ctx.count('measure_branch', [case['id'], key, 'c'], nv > 0)
             ts = c
             ts._prng = Script()
             newpsi = project(psi, q, out, n)
@@ -361,6 +458,66 @@ def walk(ctx, cirq, case, report=True):
             psi, cs = newpsi, chosen
             cs._prng = Script()
             oracles('measure')
+        elif op['kind'] == 'r':          # reset = measurement followed by X on outcome 1; the outcome is not recorded
+            if case.get('trim') and not trimmed:
+                t0, steps, trimmed = tab_lit(ts.tableau), [], True
+            q = op['axes'][0]
+            rop = cirq.ResetChannel().on(qubits[q])
+            p1 = float(np.sum(np.abs(psi.reshape((2,) * n).take(1, axis=q)) ** 2))
+            cands = {}
+            for o in (0, 1):
+                pj = project(psi, q, o, n)
+                if pj is not None:
+                    cands[o] = ref_apply(pj, PAULI[(True, False)], [q], n) if o else pj
+            res = {}
+            for bit in (op['bit'], 1 - op['bit']):
+                c = ts.copy()
+                c._prng = Script([bit])
+                cirq.act_on(rop, c)
+                res[bit] = (c, c.prng.pos)
+            c, calls = res[op['bit']]
+            if calls not in (0, 1):
+                raise Unsupported('tableau reset consumed %d random values' % calls)
+            if calls == 1 and abs(p1 - 0.5) > ATOL:
+                fails.append(('reset', 'tableau', f'tableau reset of qubit {q} draws a fair random bit but Born P(1) = {p1:.6f}'))
+            if calls == 0 and len(cands) != 1:
+                fails.append(('reset', 'tableau', f'tableau reset of qubit {q} draws no random bit but Born P(1) = {p1:.6f}'))
+            for bit in ((0, 1) if calls == 1 else (op['bit'],)):
+                if not any(not stabilizer_failures(res[bit][0].tableau, v) for v in cands.values()):
+                    fails.append(('reset', 'tableau', f'after reset of qubit {q} (Born P(1) = {p1:.6f}, scripted bit {bit}) the stabilizers do not stabilize any reference post-reset state'))
+            okc = [o for o in sorted(cands, key=lambda o: o != op['bit']) if not stabilizer_failures(c.tableau, cands[o])]
+            ctx.count('reset_branch', [case['id'], k, 't'], True, sample=dict(n=n, qubit=q, born_p1=p1, random=calls == 1))
+            steps.append(f'SSkip {tab_lit(c.tableau)}')
+            if not okc:
+                break
+            newpsi = cands[okc[0]]
+            nv = int(np.sum(cs.state.v))
+            chosen, mass = None, {o: 0 for o in cands}
+            same = len(cands) == 2 and np.allclose(cands[0], cands[1], atol=ATOL)
+            for bits in itertools.product([0, 1], repeat=nv):
+                cc = cs.copy()
+                cc._prng = Script(bits)
+                cirq.act_on(rop, cc)
+                if cc.prng.pos != nv:
+                    raise Unsupported('CH-form reset consumed %d random values, expected %d' % (cc.prng.pos, nv))
+                sv = cc.state.state_vector()
+                match = [o for o in cands if np.allclose(sv, cands[o], atol=ATOL)]
+                if not match:
+                    fails.append(('reset', 'chform', f'CH-form reset of qubit {q}: the state after script {bits} is none of the reference post-reset states'))
+                for o in match[:1]:
+                    mass[o] += 1
+                if chosen is None and np.allclose(sv, newpsi, atol=ATOL):
+                    chosen = cc
+            if not same and any(abs(mass[o] / 2 ** nv - (p1 if o else 1 - p1)) > ATOL for o in cands):
+                fails.append(('reset', 'chform', f'CH-form reset of qubit {q}: outcome masses {mass} over {2 ** nv} scripts, Born P(1) = {p1:.6f}'))
+            ctx.count('reset_branch', [case['id'], k, 'c'], True)
+            if chosen is None:
+                break
+            chsteps.append(f'HSkip {ch_coq(chosen.state)}')
+            ts, cs, psi = c, chosen, newpsi
+            ts._prng = Script()
+            cs._prng = Script()
+            oracles('reset')
     return (case['n'], t0, steps), (c0, chsteps), fails
 
 
@@ -391,38 +548,101 @@ def gen_case(rng, cid, tier):
     return dict(id=cid, n=n, init=init, ops=ops)
 
 
+def G(fam, q4, axes, shift=0.0):
+    return dict(kind='g', fam=fam, q4=q4, shift=shift, axes=list(axes))
+
+
+def gen_entangled_case(rng, cid):
+    """Measurements and resets of entangled states whose stabilizer generators are scrambled: a prefix of gates that only
+    permutes/phases basis states (CX, CZ, SWAP, S, Z, X: it changes which generators the tableau holds, not the state),
+    then a random Clifford circuit on a subset of the qubits with classical controls from the others (so the other qubits
+    keep a definite value that is a product of several generators), then every qubit measured or reset in a random order,
+    all other qubits being probed on copies before each one."""
+    n = rng.choice([3, 4, 4, 5, 5, 6, 6])
+    init = rng.randrange(2 ** n) if rng.random() < 0.3 else 0
+    sh = lambda: rng.choice(SHIFTS)
+    ops = []
+
+    def basis_gate():
+        r = rng.random()
+        if r < 0.6:
+            return G('CX', rng.choice([4, 4, -4, 12]), rng.sample(range(n), 2), sh())
+        if r < 0.75:
+            return G('CZ', rng.choice([4, -4]), rng.sample(range(n), 2), sh())
+        if r < 0.83:
+            return G('SWAP', 4, rng.sample(range(n), 2), sh())
+        if r < 0.95:
+            return G('Z', rng.choice([2, 6, 4, -2]), [rng.randrange(n)], sh())
+        return G('X', 4, [rng.randrange(n)], sh())
+
+    for _ in range(rng.randint(2 * n, 5 * n)):
+        ops.append(basis_gate())
+    sub = rng.sample(range(n), rng.randint(1, n - 1))
+    for _ in range(rng.randint(3 * len(sub) + 2, 8 * len(sub) + 4)):
+        r = rng.random()
+        t = rng.choice(sub)
+        if r < 0.25:
+            ops.append(G('H', rng.choice([4, 4, -4, 12]), [t], sh()))
+        elif r < 0.5:
+            ops.append(G(rng.choice('XYZ'), 2 * rng.choice([1, 2, 3, -1, 5]), [t], sh()))
+        else:
+            c = rng.choice([x for x in range(n) if x != t])
+            if c in sub:
+                ops.append(G(rng.choice(['CX', 'CX', 'CZ', 'SWAP']), 4, rng.sample([c, t], 2), sh()))
+            else:
+                ops.append(G(rng.choice(['CX', 'CZ']), 4, [c, t], sh()))
+    order = list(range(n))
+    rng.shuffle(order)
+    for q in order:
+        if rng.random() < 0.25:
+            ops.append(basis_gate())
+        ops.append(dict(kind='r' if rng.random() < 0.15 else 'm', axes=[q], bit=rng.randrange(2)))
+    return dict(id=cid, n=n, init=init, ops=ops, probe=True, trim=True)
+
+
 def walk_stream(ctx, cirq, count):
+    walk_cases(ctx, cirq, [gen_case(ctx.rng, cid, ctx.tier) for cid in range(count)], 'walk')
+
+
+def entangled_stream(ctx, cirq, fixed, count):
+    """`fixed` cases from a generator that does not depend on VERIF_SEED (the same on every run), `count` more from ctx.rng."""
+    frng = random.Random(0xC13)
+    cases = [gen_entangled_case(frng, f'f{i}') for i in range(fixed)] + [gen_entangled_case(ctx.rng, f'e{i}') for i in range(count)]
+    walk_cases(ctx, cirq, cases, 'ent', chmodel=False)
+
+
+def walk_cases(ctx, cirq, case_list, name, chmodel=True):
     traces, chtraces, cases = [], [], []
-    for cid in range(count):
-        case = gen_case(ctx.rng, cid, ctx.tier)
+    for case in case_list:
         trace, chtrace, fails = walk(ctx, cirq, case)
         report_fails(ctx, case, fails)
         traces.append(trace)
         chtraces.append(chtrace)
-        for k, hs in enumerate(chtrace[1]):
+        for k, hs in enumerate(chtrace[1] if chmodel else []):
             ctx.count('chform_step', [case['id'], k], not hs.startswith('HSkip'), sample=dict(n=case['n'], step=hs[:200]))
         cases.append(case)
         for k, s in enumerate(trace[2]):
             nontrivial = not s.startswith('SSkip')
             ctx.count('tableau_rule_step', [case['id'], k], nontrivial,
                       sample=dict(n=case['n'], op={kk: v for kk, v in case['ops'][min(k, len(case['ops']) - 1)].items() if kk != 'word'}, step=s[:160]))
-    bad = eval_traces(ctx, 'walk', traces)
+    bad = eval_traces(ctx, name, traces)
     for ti, k in bad:
-        ctx.mark_broken('correspondence:tableau_rule_step', f'circuit {ti} step {k}: model and implementation tableaux differ: {traces[ti][2][k][:300]}')
+        ctx.mark_broken('correspondence:tableau_rule_step', f'circuit {cases[ti]["id"]} step {k}: model and implementation tableaux differ: {traces[ti][2][k][:300]}')
         # the spec-level oracles already ran on this very circuit (walk); a failure there is the failing input
-    for ti, k in eval_chtraces(ctx, 'chwalk', chtraces):
-        ctx.mark_broken('correspondence:chform_step', f'circuit {ti} step {k}: model and implementation CH forms differ: {chtraces[ti][1][k][:400]}')
+    for ti, k in eval_chtraces(ctx, 'ch' + name, chtraces if chmodel else []):
+        ctx.mark_broken('correspondence:chform_step', f'circuit {cases[ti]["id"]} step {k}: model and implementation CH forms differ: {chtraces[ti][1][k][:400]}')
 
 
 def report_fails(ctx, case, fails):
-    for kind, label, what in fails:
-        ctx.violation(f'{kind}:{label}', f'n={case["n"]} init={case["init"]}: {what}', dict(kind='walk', case=case))
+    for kind, label, what, k in fails:
+        ctx.violation(f'{kind}:{label}', f'n={case["n"]} init={case["init"]}: {what}; circuit up to this step: {describe_ops(case["ops"][:k + 1])}',
+                      dict(kind='walk', case=case))
 
 
 def eval_traces(ctx, name, traces, shard=40):
     """Evaluate the model on the recorded traces; returns [(trace index, step index)] of disagreements."""
-    head = ('From Coq Require Import List Bool ZArith.\nFrom VF Require Import Cliff.Tableau Cliff.TableauHarness.\n'
-            'Import ListNotations.\n')
+    head = ('From Coq Require Import List Bool ZArith Uint63.\nFrom VF Require Import Cliff.Tableau Cliff.TableauHarness.\n'
+            'Import ListNotations.\nOpen Scope uint63_scope.\n')
     items = []
     for s in range(0, len(traces), shard):
         body = ';\n'.join(f'({n}%nat, {t0}, [\n  ' + ';\n  '.join(steps) + '])' for n, t0, steps in traces[s:s + shard])
@@ -464,6 +684,90 @@ def eval_chtraces(ctx, name, chtraces, shard=40):
     return bad
 
 
+def literal_selftest(ctx, cirq):
+    """The packed tableau literals (TI) decode to the same tableaux as the readable ones (R rows): 40 random tableaux."""
+    rng = random.Random(7)
+    tabs = [random_tableau(cirq, rng, rng.randint(1, 6)) for _ in range(40)]
+    for t in tabs[::3]:
+        t.rs[rng.randrange(2 * t.n)] ^= True
+    text = ('From Coq Require Import List Bool ZArith Uint63.\nFrom VF Require Import Cliff.Tableau Cliff.TableauHarness.\n'
+            'Import ListNotations.\nOpen Scope uint63_scope.\nEval vm_compute in map (fun p => tab_eqb (fst p) (snd p)) [\n' +
+            ';\n'.join(f'({tab_lit(t)}, ({tab_coq(t)})%nat)' for t in tabs) + '].\n')
+    vals = coq.parse_evals(coq.coq_eval(f'c13_literals_{ctx.seed}', text))
+    if len(vals) != 1 or vals[0].count('true') != len(tabs) or 'false' in vals[0]:
+        ctx.mark_broken('harness:packed-literals', 'TI literals do not decode to the tableaux they were built from')
+
+
+# ------------------------------------------------------------------ every measurement of every short 3-qubit circuit
+def measure_grid(ctx, cirq, depth, n=3):
+    """Breadth-first over all circuits of at most `depth` gates from {H_i, S_i, CX_ij} on n qubits (distinct tableaux only):
+    every qubit of every reached tableau is measured under every scripted random bit; each branch is judged against the
+    numpy reference state (Born probability, collapsed state) and replayed through the model.  Independent of VERIF_SEED.
+    Returns {class of measurement: [(ops, qubit)]} in breadth-first order."""
+    gens = [G('H', 4, [i]) for i in range(n)] + [G('Z', 2, [i]) for i in range(n)] + \
+           [G('CX', 4, [i, j]) for i in range(n) for j in range(n) if i != j]
+    mats = [embed(np.asarray(cirq.unitary(make_gate(cirq, g))), g['axes'], n) for g in gens]
+    qubits = cirq.LineQubit.range(n)
+
+    def step(t, g):
+        c = t.copy()
+        if g['fam'] == 'H':
+            c.apply_h(g['axes'][0])
+        elif g['fam'] == 'Z':
+            c.apply_z(g['axes'][0], 0.5)
+        else:
+            c.apply_cx(*g['axes'])
+        return c
+
+    def direct(t, q):                  # CliffordTableau.measure on a copy, the random bit scripted
+        def run(bit):
+            c, sc = t.copy(), Script([bit])
+            (out,) = c.measure([q], seed=sc)
+            return c, int(out), sc.pos, c
+        return run
+
+    keyf = lambda t: t.matrix().tobytes() + t.rs.tobytes()
+    t0 = cirq.CliffordTableau(n)
+    psi0 = np.zeros(2 ** n, dtype=complex)
+    psi0[0] = 1
+    seen = {keyf(t0)}
+    level = [(t0, psi0, ())]
+    traces, words, classes = [], [], {}
+    for d in range(depth + 1):
+        nxt = []
+        for t, psi, w in level:
+            steps, fails = [], FailList()
+            for q in range(n):
+                fails.k = q
+                p1 = float(np.sum(np.abs(psi.reshape((2,) * n).take(1, axis=q)) ** 2))
+                tableau_measure(ctx, t, direct(t, q), psi, q, f'g{q}', 0, ['grid', list(w)], False, steps, fails)
+                if abs(p1 - 0.5) < ATOL:
+                    cls = 'random'
+                else:
+                    kk, ph = product_class(t, q)
+                    cls = f'fixed by a product of {kk} generator(s)' + (', Pauli product contributes -1' if ph else '')
+                classes.setdefault(cls, []).append((w, q))
+                ctx.count('measure_grid', [list(w), q], cls != 'fixed by a product of 1 generator(s)',
+                          sample=dict(n=n, circuit=describe_ops([gens[i] for i in w]), qubit=q, born_p1=p1, kind=cls))
+            for kind, label, what, q in fails:
+                ops = [gens[i] for i in w] + [dict(kind='m', axes=[q], bit=0)]
+                ctx.violation(f'{kind}:{label}', f'n={n} init=0: {what}; circuit: {describe_ops(ops)}',
+                              dict(kind='walk', case=dict(id='grid', n=n, init=0, ops=ops)))
+            traces.append((n, tab_lit(t), steps))
+            words.append(w)
+            if d < depth:
+                for gi, g in enumerate(gens):
+                    t2 = step(t, g)
+                    k2 = keyf(t2)
+                    if k2 not in seen:
+                        seen.add(k2)
+                        nxt.append((t2, mats[gi] @ psi, w + (gi,)))
+        level = nxt
+    for ti, k in eval_traces(ctx, 'grid', traces, shard=400):
+        ctx.mark_broken('correspondence:measure_grid', f'circuit {describe_ops([gens[i] for i in words[ti]])}: model and implementation measurement differ: {traces[ti][2][k][:300]}')
+    return {cls: [([gens[i] for i in w], q) for w, q in lst] for cls, lst in classes.items()}
+
+
 # ------------------------------------------------------------------ then / inverse / validate against the model
 def random_tableau(cirq, rng, n, length=None):
     t = cirq.CliffordTableau(n)
@@ -489,12 +793,12 @@ def then_stream(ctx, cirq, count):
     for i in range(count):
         n = ctx.rng.choice([1, 1, 2, 2, 3, 4, 5])
         t1, t2 = random_tableau(cirq, ctx.rng, n), random_tableau(cirq, ctx.rng, n)
-        steps = [f'SValid {B(t1._validate())}', f'SInv {tab_coq(t1.inverse())}', f'SThen {tab_coq(t2)} {tab_coq(t1.then(t2))}']
+        steps = [f'SValid {B(t1._validate())}', f'SInv {tab_lit(t1.inverse())}', f'SThen {tab_lit(t2)} {tab_lit(t1.then(t2))}']
         if ctx.rng.random() < 0.3:       # an invalid table must be rejected by _validate
             bad = t1.copy()
             bad.xs[ctx.rng.randrange(2 * n), ctx.rng.randrange(n)] ^= True
-            traces.append((n, tab_coq(bad), [f'SValid {B(bad._validate())}']))
-        traces.append((n, tab_coq(t1), steps))
+            traces.append((n, tab_lit(bad), [f'SValid {B(bad._validate())}']))
+        traces.append((n, tab_lit(t1), steps))
         ctx.count('then_inverse', [n, tab_coq(t1), tab_coq(t2)], True, sample=dict(n=n, t1=tab_coq(t1), t2=tab_coq(t2)))
     for ti, k in eval_traces(ctx, 'then', traces):
         ctx.mark_broken('correspondence:then_inverse', f'trace {ti} step {k}: {traces[ti][2][k][:300]} from {traces[ti][1]}')
@@ -762,6 +1066,31 @@ def e2e_stream(ctx, cirq, count):
         done += 1
 
 
+def e2e_grid(ctx, cirq, classes, per_class):
+    """The simulators end to end on circuits of the measurement grid, the same number from every class of measurement."""
+    for cls in sorted(classes):
+        lst = classes[cls]
+        for ops, q in lst[::max(1, len(lst) // per_class)][:per_class]:
+            n = 3
+            rest = [(q + 1 + i) % n for i in range(n)]
+            e2e_case(ctx, cirq, dict(n=n, ops=list(ops) + [dict(kind='m', axes=[q]), dict(kind='m', axes=rest)]))
+
+
+def e2e_entangled(ctx, cirq, fixed, count):
+    frng = random.Random(0xE2E)
+    for rng, k in ((frng, fixed), (ctx.rng, count)):
+        done = 0
+        while done < k:
+            case = gen_entangled_case(rng, 'x')
+            if case['n'] > 4:
+                continue
+            ops = [o for o in case['ops'] if o['kind'] == 'g']
+            order = [o['axes'][0] for o in case['ops'] if o['kind'] in ('m', 'r')]
+            ops += [dict(kind='m', axes=[a]) for a in order[:2]] + [dict(kind='m', axes=order[2:] + order[:1])]
+            if e2e_case(ctx, cirq, dict(n=case['n'], ops=ops)) is not None:
+                done += 1
+
+
 def e2e_case(ctx, cirq, case, cap=160):
     n, ops = case['n'], case['ops']
     circuit, keys, qubits = e2e_circuit(cirq, n, ops)
@@ -794,12 +1123,12 @@ def e2e_case(ctx, cirq, case, cap=160):
             dist[rec] = dist.get(rec, 0.0) + p
             ctx.count('e2e_branch', [name, repr(case), rec, p], len(leaves) > 1)
             if sv is not None and (rec not in want or not np.allclose(sv, want[rec][1], atol=ATOL)):
-                ctx.violation('e2e:final-state:' + name, f'{name}: final state of branch {rec} differs from the collapsed reference state',
+                ctx.violation('e2e:final-state:' + name, f'{name}: final state of branch {rec} differs from the collapsed reference state; n={n} circuit: {describe_ops(ops)}',
                               dict(kind='e2e', case=case))
         for rec in set(dist) | set(want):
             if abs(dist.get(rec, 0.0) - want.get(rec, (0.0,))[0]) > ATOL:
                 ctx.violation('e2e:probability:' + name,
-                              f'{name}: outcome {rec} has probability {dist.get(rec, 0.0):.6f} over all scripts, Born probability {want.get(rec, (0.0,))[0]:.6f}',
+                              f'{name}: outcome {rec} has probability {dist.get(rec, 0.0):.6f} over all scripts, Born probability {want.get(rec, (0.0,))[0]:.6f}; n={n} circuit: {describe_ops(ops)}',
                               dict(kind='e2e', case=case))
     ctx.count('e2e_circuit', repr(case), True, sample=dict(n=n, circuit=str(circuit).splitlines()[:4], outcomes=len(want)))
     return True
@@ -831,7 +1160,11 @@ def run(ctx):
                 'implementation tableau is compared bit for bit with the model (vm_compute) and, on the real code, stabilizers / CH-form amplitudes / '
                 'branch probabilities with a numpy state-vector reference; simulators end to end over every script of random bits; group laws of all 24 '
                 '(and sampled or all 11520 two-qubit, random 3-4 qubit) CliffordGates against matrices; non-trivial = step changes the tableau model '
-                'input or branch is random; distinct by (circuit, step)')
+                'input or branch is random; distinct by (circuit, step).  Measurement grid (same on every run): every qubit of every tableau reached by at most 4 '
+                '(thorough: 5) gates of {H, S, CX} on 3 qubits is measured under every scripted bit and judged by Born probability, collapsed state and '
+                'the model; entangled-measurement circuits (generator-scrambling prefix of basis-state gates, Clifford circuit on a subset with classical '
+                'controls, every qubit measured or reset in random order, all other qubits probed on copies before each): a fixed set plus a VERIF_SEED set; '
+                'streams measure_deterministic / measure_product_phase count outcomes fixed by a product of >= 2 generators / whose Pauli product carries -1')
     ctx.assumptions += ['numpy reference simulation in vf/checks/c13.py (cirq.unitary of each gate applied by tensordot, projectors for measurement)',
                         'gate matrices transcribed in coq/Gates/GateSpecs.v', 'scripted seed object answers randint(2) only; any other request aborts the case']
     err = tables.regenerate(['TableauRules'])
@@ -839,13 +1172,18 @@ def run(ctx):
         ctx.mark_broken('table:TableauRules', err['TableauRules'])
     ctx.set_obligations(coq.compile_props('C13'))
     quick = ctx.tier == 'quick'
+    literal_selftest(ctx, cirq)
+    classes = measure_grid(ctx, cirq, 4 if quick else 5)
     walk_stream(ctx, cirq, 160 if quick else 1500)
+    entangled_stream(ctx, cirq, 40 if quick else 200, 40 if quick else 600)
     then_stream(ctx, cirq, 120 if quick else 1000)
     group_1q(ctx, cirq)
     group_2q(ctx, cirq, exhaustive=not quick, sample=250)
     group_nq(ctx, cirq, 40 if quick else 300)
     decompose_stream(ctx, cirq, 80 if quick else 600)
     e2e_stream(ctx, cirq, 45 if quick else 300)
+    e2e_grid(ctx, cirq, classes, 6 if quick else 40)
+    e2e_entangled(ctx, cirq, 6 if quick else 30, 6 if quick else 60)
     int_seed_stream(ctx, cirq)
 
 
